@@ -493,36 +493,29 @@ impl JobServer {
                 .map_err(RedoError::opaque_error)?;
             assert_eq!(state.my_tokens, 1);
         }
-        assert!(
-            state.cheats <= state.my_tokens,
-            "mytokens={}, cheats={}",
-            state.my_tokens,
-            state.cheats
-        );
-        assert!(
-            state.cheats == 0 || state.cheats == 1,
-            "cheats={}",
-            state.cheats
-        );
-        if state.cheats > 0 {
-            let cheats = state.cheats;
+        assert!(state.cheats >= 0, "cheats={}", state.cheats);
+        if state.cheats > 0 || (self.params.top_level == 0 && state.my_tokens == 0) {
+            // Whoever reaps us re-creates one token on our behalf.  We leave
+            // holding `my_tokens - cheats` real ones (borrowed tokens were
+            // never real), so every token short of one is recorded as a debt:
+            // the next reaper that finds the byte will not re-create its
+            // child's token.  Normally that is one byte (we still hold the
+            // borrowed token, or we hold nothing under an inherited jobserver
+            // -- the reap of our last child consumed a debt byte, or an error
+            // interrupted a lock wait after we gave our token up).  It is two
+            // when the borrowed token is gone as well: it went to a job whose
+            // exit was settled by somebody else's debt byte.
+            let debt = 1 - (state.my_tokens - state.cheats);
+            let held = cmp::min(state.cheats, state.my_tokens);
             debug_jobserver!(
-                "{},{} -> force_return_tokens: recovering final token",
+                "{},{} -> force_return_tokens: recording a debt of {}",
                 state.my_tokens,
-                cheats
+                state.cheats,
+                debt
             );
-            state.destroy_tokens(cheats);
-            write_tokens(self.params.cheat_fds.1, state.cheats as usize)
+            state.destroy_tokens(held);
+            write_tokens(self.params.cheat_fds.1, debt as usize)
                 .map_err(RedoError::opaque_error)?;
-        } else if self.params.top_level == 0 && state.my_tokens == 0 {
-            // We are about to exit under an inherited jobserver without
-            // holding any token (for example, the reap of our last child
-            // consumed a cheat byte, or an error interrupted a lock wait
-            // after we gave our token up). Whoever reaps us will re-create a
-            // token on our behalf, so record the debt the same way as for a
-            // cheated token: the next reaper that finds the byte will not
-            // re-create its child's token.
-            write_tokens(self.params.cheat_fds.1, 1).map_err(RedoError::opaque_error)?;
         }
         Ok(())
     }
